@@ -68,4 +68,16 @@ PROPS = {
                 "Non-trivial: valid file with >=1 import and >=1 comment or semicolon inside the import section; arbitrary input on which strict mode errs or reports an import. Distinct by source bytes.",
         "assumptions": ["in lenient mode a non-syntax read error (NUL byte) may still be reported, with the data read so far"],
     },
+    "C05": {
+        "pkg": "c05_cache",
+        "level": "exploration",
+        "technique": "model-based stateful property test (rapid-generated operation histories incl. on-disk damage and a grammar of near-valid index entries) + native fuzzing of index-entry bytes; oracle = in-memory model + checksum/size gates",
+        "level_text": "Histories of Put/PutBytes/PutNoVerify/Get/GetBytes/GetFile/OutputFile/reopen over 6 action IDs and 8 contents, interleaved with damage of index and data files (truncate, extend, flip, delete, replace, same-size overwrite, near-valid index entries), are run against the real cache; after every step every ID is looked up and compared with an in-memory model (exact bytes when untouched since the last Put; otherwise not-found or hash/size-verified). A deterministic matrix checks that Put repairs every damage kind.",
+        "level_note": "Trusted: the in-memory model in harness/c05_cache; on-disk layout <dir>/<xx>/<hex>-a|-d as documented in cache.go (used to aim the damage; a layout change makes damage miss, which weakens but does not falsify the check).",
+        "shards": {"quick": 4, "thorough": 16},
+        "fuzz": [{"name": "FuzzIndexEntry", "seconds": 60}],
+        "rule": "history = 1-30 operations drawn from put/putbytes/putnoverify (50%), explicit lookup, reopen/outputfile, damage (index|data x truncate/extend/flip/delete/replace/samesize; replaced index entries drawn from a 14-way grammar of valid and near-valid entries or arbitrary bytes); all 6 IDs are looked up with Get, GetBytes and GetFile after every step. "
+                "Non-trivial: the history damages a file that a previously stored (or planted) entry depends on, so that lookups run against the damaged state. Distinct by operation list.",
+        "assumptions": ["GODEBUG is cleared by the driver (gocacheverify would change Get)", "the cache directory is writable (Put on a writable directory must succeed)"],
+    },
 }
